@@ -373,7 +373,7 @@ pub fn checks() -> Vec<Check> {
             c14::bounds,
             (2, 3),
             3,
-            "48 attribute-group subsets x 4 sequence kinds; <=2 (quick) / <=3 (thorough) deviations over types, value sets, limit overrides and per-attribute value orders (all 6 orders of 3 distinct values)",
+            "48 attribute-group subsets x 4 sequence kinds; <=2 (quick) / <=3 (thorough) deviations over types, value sets, limit overrides, per-attribute value orders (all 6 orders of 3 distinct values) and hooked packet capacity {natural, 1, 2, 3}",
         )],
         extra: None,
         rule: "deviation-bounded DFS: all cases with at most d non-default choices; bounds compared numerically with an independent fold over the harness's point list; non-trivial = cloud with points",
